@@ -759,7 +759,9 @@ impl World {
                 let si = self.pick_slot(*slot);
                 let s = &mut self.slots[si];
                 let prefix: Vec<usize> = s.io.stable_prefix().iter().map(|x| x.len()).collect();
-                let want = (*k as usize).min(prefix.len());
+                // (255 stands for usize::MAX: "consume everything")
+                let k = &(if *k == 255 { usize::MAX } else { *k as usize });
+                let want = (*k).min(prefix.len());
                 let bytes: usize = prefix[..want].iter().sum();
                 let got = if k % 2 == 1 && s.m.pending.is_empty() {
                     // Through the StableIovec wrapper (DerefMut to ConsumingIovec).
@@ -792,9 +794,24 @@ impl World {
                 let s = &mut self.slots[si];
                 let prefix: Vec<usize> = s.io.stable_prefix().iter().map(|x| x.len()).collect();
                 let avail: usize = prefix.iter().sum();
-                let n = n_abs.unwrap_or_else(|| avail * frac.unwrap() / 255);
+                // (the top of the u32 range stands for the top of the usize range)
+                let n = n_abs.map(|n| if n >= u32::MAX as usize - 3 { usize::MAX - (u32::MAX as usize - n) } else { n }).unwrap_or_else(|| avail * frac.unwrap() / 255);
                 let want = n.min(avail);
-                let got = s.io.consumer().advance_slices(n);
+                // Through `consumer()`, or through the conversion traits (`From<&mut OwningIovec>`,
+                // then `TryFrom<ConsumingIovec>` for the stable wrapper when nothing is pending).
+                let got = match n % 3 {
+                    0 => s.io.consumer().advance_slices(n),
+                    1 => owning_iovec::ConsumingIovec::from(&mut s.io).advance_slices(n),
+                    _ => {
+                        let consumer = owning_iovec::ConsumingIovec::from(&mut s.io);
+                        match owning_iovec::StableIovec::try_from(consumer) {
+                            Ok(mut stable) if s.m.pending.is_empty() => stable.advance_slices(n),
+                            Ok(_) => return Err(fail("stable_consumer:arm", "StableIovec::try_from succeeded with a placeholder pending".to_string())),
+                            Err(_) if !s.m.pending.is_empty() => s.io.consumer().advance_slices(n),
+                            Err(_) => return Err(fail("stable_consumer:arm", "StableIovec::try_from failed with no placeholder pending".to_string())),
+                        }
+                    }
+                };
                 if got != want {
                     return Err(fail("advance:count", format!("advance_slices({n}) returned {got} with {avail} consumable bytes")));
                 }
@@ -1344,8 +1361,8 @@ pub fn op(mix: Mix) -> BoxedStrategy<Op> {
         1 => (slot(), any::<u8>()).prop_map(|(slot, which)| Op::Backfill { slot, which }),
     ];
     let consume = prop_oneof![
-        2 => (slot(), 0u8..4).prop_map(|(slot, k)| Op::Consume { slot, k }),
-        2 => (slot(), prop_oneof![0u32..20, 0u32..400, 0u32..10_000]).prop_map(|(slot, n)| Op::Advance { slot, n }),
+        2 => (slot(), prop_oneof![9 => 0u8..4, 1 => Just(255u8)]).prop_map(|(slot, k)| Op::Consume { slot, k }),
+        2 => (slot(), prop_oneof![6 => 0u32..20, 6 => 0u32..400, 6 => 0u32..10_000, 1 => u32::MAX - 3..=u32::MAX]).prop_map(|(slot, n)| Op::Advance { slot, n }),
         2 => (slot(), any::<u8>()).prop_map(|(slot, f)| Op::AdvanceFrac { slot, f }),
         1 => slot().prop_map(|slot| Op::PopFront { slot }),
         2 => (slot(), prop_oneof![0u16..20, 0u16..400]).prop_map(|(slot, n)| Op::Read { slot, n }),
